@@ -1057,6 +1057,10 @@ func (c *compiler) evalForExpression(node *ast.ForExpression) (interface{}, erro
 		for i := 0; i < len(keys); i++ {
 			k := keys[i]
 			v := riter.MapIndex(k)
+			if !v.IsValid() {
+				// the entry was removed by an earlier iteration
+				continue
+			}
 
 			c.ctx.Set(node.KeyName, k.Interface())
 			c.ctx.Set(node.ValueName, v.Interface())
